@@ -59,7 +59,7 @@ func ensureCapacity(array []byte, asked int) (head []byte) {
 	res := needExpand(array, asked)
 	arrayLen := len(array)
 	if res == 0{
-		head = array
+		head = array[:arrayLen+asked] // enough spare capacity: extend in place so that the output is part of the result
 	}else{
 		head = make([]byte,arrayLen+asked)
 		if arrayLen!=0 {
